@@ -1313,6 +1313,23 @@ func (vc *VC) dynName(sig *types.Signature) (string, []string, []string) {
 func (fr *Frame) dynCall(fv Val, c *ssa.CallCommon, args []Val, resT types.Type, cond string, st *State) Val {
 	vc := fr.vc
 	sig, ok := c.Value.Type().Underlying().(*types.Signature)
+	if ok && sig.Results().Len() == 0 {
+		// a callback without results: its call is recorded in the effect trace (operation "dyncall", string arguments kept)
+		hasPtr := false
+		for _, a := range args {
+			if a.Loc != nil {
+				hasPtr = true
+			}
+			if _, isPtr := a.T.Underlying().(*types.Pointer); isPtr {
+				hasPtr = true
+			}
+		}
+		if !hasPtr && fv.Clo == nil {
+			pre := st.clone()
+			fr.logCall(st, pre, "dyncall", "", args, nil)
+			return Val{T: resT}
+		}
+	}
 	if !ok || fv.Term == "" || sig.Results().Len() == 0 {
 		return fr.havocCall("dynamic call", c, args, resT, cond, st)
 	}
